@@ -205,7 +205,7 @@ def main(argv=None):
                           f, indent=1, sort_keys=True, default=str)
         # confirm every new violation by re-executing its point (determinism / replayability)
         confirmed = []
-        todo = sorted(new, key=lambda t: (t[0], t[1]))[:40]
+        todo = sorted(new, key=lambda t: (t[0], t[1]))[:8]
         # each confirmation runs in a fresh forked process: a violation may have corrupted process-wide state
         replays = confirm(mod, [(key, point) for rank, key, what, point, count in todo], tier) if todo else {}
         for rank, key, what, point, count in todo:
